@@ -597,9 +597,8 @@ func pruneArray(v any) any {
 		}
 
 		if va == nil {
-			if i > 0 {
-				r = append(r, a[:i]...)
-			}
+			r = make([]any, i, len(a)-1)
+			copy(r, a)
 
 			n = true
 		}
